@@ -143,7 +143,7 @@ theorem resolveLoop_ext (ev : Ev) (step nw : Nat) (now : Int) :
     unfold resolveLoop
     split
     · apply resolveLoop_ext
-      have h2 := addOrEnqueue_ext { ev := w.ev } step
+      have h2 := addOrEnqueue_ext w.replay step
         { ss with waiters := done ++ { w with resolved := some ev } :: rest } nw now
       exact Ext.trans (r1 := (ss, cmds)) h h2
     · exact resolveLoop_ext ev step nw now rest _ ss ss0 cmds hd h
@@ -738,7 +738,7 @@ theorem processWaiterTimeout_track (cfg : Cfg) (step waiter : Nat) (st : State) 
         obtain ⟨hcmem, hcname⟩ := Cfg.mem_of_find hc
         have hname : step ∈ cfg.names := hcname ▸ List.mem_map_of_mem hcmem
         have he : Ext step (st.workers step)
-            (addOrEnqueue { ev := w.ev } step
+            (addOrEnqueue w.replay step
               { (st.workers step) with
                 waiters := modifyFirst (fun x => x.wid == waiter) (fun x => { x with timedOut := true })
                   (st.workers step).waiters } (cfg.nw step) now) :=
